@@ -10,7 +10,7 @@
 From Coq Require Import List NArith ZArith Bool Arith.
 From RPFT Require Import Base.Sexp Base.PyStr Base.Result Base.Json Gen.Tables
   Io.CliFlow Io.CliIndex Io.CliJson Io.CliJsonFacts Io.Cli Io.CliSimFacts Io.CliRowFacts Io.CliCatFacts
-  Io.CliFacts Io.CliFull Io.CliExamples.
+  Io.CliFacts Io.CliFull Io.CliExamples Io.CliLog Io.CliLogFacts.
 Import ListNotations.
 
 (* ---- the prefix lemma: what precedes the first read of a row does not depend on that row;
@@ -397,6 +397,76 @@ Theorem c15_detect_template_argument_in_data_row :
   compile fuel wb dm = Err EArgDouble.
 Proof. exact detect_template_argument_in_data_row. Qed.
 Print Assumptions c15_detect_template_argument_in_data_row.
+
+(* ---- the command however it is started.  `log_configs` = the regenerated table c15_log_configs: one row per invocation
+        environment the translator DISCOVERED in the tree at hand (every environment variable the package reads x plausible
+        values, the working directory where the log file is opened, every option of the subcommand) and probed on the real
+        rpft.cli.main(): which handlers see the records of logger "main", from which level each ends the process and with
+        which status.  `compile = Err c` already means "under every such configuration": Io/CliFlow.v site_stops asks
+        every_config_stops_at of the level of the site. *)
+Theorem c15_log_model_tied :
+  (* the Gallina dispatch (Logger.log: level, then the handlers in order) gives what the probe saw through logger.log *)
+  forallb log_model_agrees log_configs = true.
+Proof. exact log_model_tied. Qed.
+Print Assumptions c15_log_model_tied.
+
+Theorem c15_every_reachable_config_terminates :
+  (* every configuration that gets as far as the library call installs a terminating handler: the first handler that
+     ends the process at CRITICAL does so with a non-zero status, and the logger lets CRITICAL records through *)
+  forall cfg, In cfg log_configs -> started cfg = true ->
+  exists pre t e post,
+    lc_handlers cfg = pre ++ (t, e) :: post /\ (t <= lvl_critical)%N /\ e <> 0%N /\
+    (forall t' e', In (t', e') pre -> (lvl_critical < t')%N) /\
+    (lc_level cfg <= lvl_critical)%N /\ log_at cfg lvl_critical = Some e.
+Proof. exact reachable_config_terminates. Qed.
+Print Assumptions c15_every_reachable_config_terminates.
+
+Theorem c15_cli_error_no_file_every_config :
+  forall cfg fuel wb dm out f c,
+    In cfg log_configs ->
+    compile fuel wb dm = Err c ->
+  exists st, cli_in cfg fuel wb dm out f = Some (st, f) /\ (lc_start cfg <> 2%N -> st <> 0%N).
+Proof. exact cli_in_error_no_file. Qed.
+Print Assumptions c15_cli_error_no_file_every_config.
+
+Theorem c15_cli_not_started_untouched :
+  (* e.g. the log file cannot be opened: the command ends before it reads anything and writes nothing *)
+  forall cfg fuel wb dm out f,
+    In cfg log_configs -> started cfg = false ->
+  cli_in cfg fuel wb dm out f = Some (snd (lc_observed cfg), f).
+Proof. exact cli_in_not_started_untouched. Qed.
+Print Assumptions c15_cli_not_started_untouched.
+
+Theorem c15_cli_ok_complete_config_partial :
+  (* partial: only configurations that end the process at the same level as the default one; a stricter configuration
+     may stop at a warning, which the compile model does not know *)
+  forall cfg fuel wb dm out f d,
+    started cfg = true -> like_default cfg = true ->
+    compile fuel wb dm = Ok d ->
+  cli_in cfg fuel wb dm out f = Some (0%N, fs_write f out (serialize (doc_json d))).
+Proof. exact cli_in_ok_complete. Qed.
+Print Assumptions c15_cli_ok_complete_config_partial.
+
+Theorem c15_cli_output_old_or_complete_every_config :
+  forall cfg fuel wb dm out f st f',
+    In cfg log_configs ->
+    cli_in cfg fuel wb dm out f = Some (st, f') ->
+  f' = f \/ exists d, compile fuel wb dm = Ok d /\ f' = fs_write f out (serialize (doc_json d)).
+Proof. exact cli_in_output_old_or_complete. Qed.
+Print Assumptions c15_cli_output_old_or_complete_every_config.
+
+Theorem c15_cli_default_config :
+  (* configuration 0 (nothing set, fresh working directory) is the command of Io/Cli.v *)
+  exists cfg, find_config 0 = Some cfg /\ In cfg log_configs /\ started cfg = true /\ like_default cfg = true /\
+              forall fuel wb dm out f, cli_in cfg fuel wb dm out f = Some (cli fuel wb dm out f).
+Proof. exact cli_in_default. Qed.
+Print Assumptions c15_cli_default_config.
+
+Example c15_configs_nonvacuous :
+  exists cfg, In cfg log_configs /\ lc_id cfg = 0%N /\ started cfg = true /\ like_default cfg = true /\
+              stops_at cfg lvl_critical = true.
+Proof. exact configs_nonvacuous. Qed.
+Print Assumptions c15_configs_nonvacuous.
 
 (* ---- non-vacuity: a concrete workbook (CliExamples.v) satisfying the hypotheses *)
 From Coq Require Import String.
